@@ -184,6 +184,9 @@ pub enum Status {
 
 #[derive(Clone, Debug)]
 pub struct SlotInfo {
+    /// kernel thread id of the slot's OS thread (Linux, not under Miri): lets the caller wait until a worker
+    /// that has logically exited is really gone, so that `JoinHandle::is_finished` has one answer
+    pub tid: Option<u32>,
     pub status: Status,
     pub frame: usize,
     pub chunk: usize,
@@ -347,6 +350,7 @@ pub fn begin_run(cfg: Cfg) {
     st.current = 0;
     let prio = st.rng.next_u64();
     st.slots.push(SlotInfo {
+        tid: None,
         status: Status::Runnable,
         frame: usize::MAX,
         chunk: 0,
@@ -894,7 +898,39 @@ fn hook_spawner_point(p: SpawnerPoint, n: usize) {
         }
         _ => {}
     }
+    let join_tid = match p {
+        SpawnerPoint::BeforeJoinOne => {
+            let k = st.frames[f].joins - 1;
+            st.slots.get(st.frames[f].first_slot + k).and_then(|s| s.tid)
+        }
+        _ => None,
+    };
     yield_token(st, me);
+    // the worker about to be joined has logically exited; make sure its thread has really finished, so that
+    // anything the library asks about the handle (is_finished) does not depend on wall-clock luck
+    wait_thread_gone(join_tid);
+}
+
+fn own_tid() -> Option<u32> {
+    if cfg!(miri) {
+        return None;
+    }
+    let p = std::fs::read_link("/proc/thread-self").ok()?;
+    p.file_name()?.to_str()?.parse().ok()
+}
+
+/// Real-time wait (deterministic outcome) until the OS thread of a worker that has passed its exit hook is gone.
+fn wait_thread_gone(tid: Option<u32>) {
+    if let Some(t) = tid {
+        let path = format!("/proc/self/task/{}", t);
+        let t0 = std::time::Instant::now();
+        while std::path::Path::new(&path).exists() {
+            if t0.elapsed() > Duration::from_secs(5) {
+                break;
+            }
+            std::thread::yield_now();
+        }
+    }
 }
 
 fn hook_worker_enter(chunk: usize) {
@@ -916,6 +952,7 @@ fn hook_worker_enter(chunk: usize) {
     }
     let prio = st.rng.next_u64();
     st.slots.push(SlotInfo {
+        tid: own_tid(),
         status: Status::Registered,
         frame: f,
         chunk,
